@@ -528,8 +528,8 @@ func linHistory(n *nodis.Nodis, r *rand.Rand, rounds int, addr string) string {
 					// over the network protocol one command can carry several fields / members: it is one write
 					if kind == "h" {
 						pool = append(append([]string{}, pool...), "HSET2", "HSET2", "HLEN")
-					} else if kind == "z" && os.Getenv("VERIF_LIN_ZADD2") != "" {
-						// (off by default until the multi-member ZADD is one transaction: see known finding A-52)
+					} else if kind == "z" {
+						// (one transaction since the repair of A-52: handler zAdd -> zAddPairs)
 						pool = append(append([]string{}, pool...), "ZADD2", "ZADD2", "ZCARD")
 					}
 				}
